@@ -171,11 +171,17 @@ def base_scenarios(sizes=(1, 2, None), with_cb=True) -> Iterable[Tuple[List[dict
                             ("starmap", {"n": 2, "nc": 2})):
             for cb in (CB_VARIANTS if with_cb else [None]):
                 for script in ([["wait"]], [["yield", 2]], [["wait"], ["yield", 1]]):
-                    sp = {"op": "spawn", "pool": 0, "kind": kind, "worker": {"script": script, "fname": "w"}, "place": "inline", **extra}
-                    if cb is not None:
-                        sp["ecb"] = cb
-                        sp["ccb"] = cb
-                    yield [{"cls": "TaskPool", "size": size}], [sp]
+                    for ends in (None, [["raise"], ["ret"]]):
+                        if ends is not None and script == [["wait"], ["yield", 1]]:
+                            continue
+                        wk = {"script": script, "fname": "w"}
+                        if ends is not None:
+                            wk["ends"] = ends       # the first invocation fails, the others return
+                        sp = {"op": "spawn", "pool": 0, "kind": kind, "worker": wk, "place": "inline", **extra}
+                        if cb is not None:
+                            sp["ecb"] = cb
+                            sp["ccb"] = cb
+                        yield [{"cls": "TaskPool", "size": size}], [sp]
 
 
 def sweep_space(perturbs: List[dict], tail: Optional[List[dict]] = None, max_tick: int = 6, places=("inline", "task", "soon"),
